@@ -67,3 +67,11 @@ def lenclass(n):
     if n <= 1100:
         return 21 + (n % 7 == 0)
     return 23
+
+
+def need_bytes(ctx, pid, res, what):
+    """The API under test promised bytes: anything else (None, str, int) is a
+    wrong result, not a harness problem."""
+    if not isinstance(res, (bytes, bytearray, memoryview)):
+        ctx.violation("%s/wrong-type-returned/%s" % (pid, type(res).__name__), "%s returned %r instead of bytes" % (what, res))
+    return bytes(res)
